@@ -85,7 +85,7 @@ class CoverageRun:
         d = core.scratch("c01cov")
         try:
             f = _write_cases(d, "cov.json", self.cases)
-            self.res = core.run_tlc(SPEC / "NMTran.tla", SPEC / "NMTran.cfg", workers=4, timeout=1500, env={"CASES": str(f)}, coverage=True)
+            self.res = core.run_tlc(SPEC / "NMTranCov.tla", SPEC / "NMTranCov.cfg", workers=4, timeout=1500, env={"CASES": str(f), "JAVA_TOOL_OPTIONS": "-Xss32m"}, coverage=True)
         except Exception as e:  # noqa: BLE001
             self.exc = e
         finally:
@@ -115,7 +115,7 @@ def run_interpreter(cases, v: core.Verdict, chunk: int, timeout=3000):
         for i in range(0, len(cases), chunk):
             part = cases[i:i + chunk]
             f = _write_cases(d, f"cases{i}.json", part)
-            res = core.run_tlc(SPEC / "NMTran.tla", SPEC / "NMTran.cfg", workers=16, timeout=timeout, env={"CASES": str(f)}, coverage=False)
+            res = core.run_tlc(SPEC / "NMTran.tla", SPEC / "NMTran.cfg", workers=16, timeout=timeout, env={"CASES": str(f), "JAVA_TOOL_OPTIONS": "-Xss32m"}, coverage=False)
             core.require_ok(res, "NMTran.tla")
             if res.violated:
                 raise core.MachineryError(f"NMTran.tla: invariant {res.violated} violated:\n" + "\n".join(res.trace[-2:])[:2000])
@@ -145,7 +145,7 @@ def run_param_meaning(cases, v: core.Verdict, timeout=1800):
         f = d / "params.json"
         keep = ("id", "thetas", "omegas", "sigmas")
         f.write_text(json.dumps({"cases": [{k: c[k] for k in keep} for c in cases]}))
-        res = core.run_tlc(SPEC / "ParamMeaning.tla", SPEC / "ParamMeaning.cfg", workers=16, timeout=timeout, env={"CASES": str(f)})
+        res = core.run_tlc(SPEC / "ParamMeaning.tla", SPEC / "ParamMeaning.cfg", workers=16, timeout=timeout, env={"CASES": str(f), "JAVA_TOOL_OPTIONS": "-Xss32m"})
     finally:
         shutil.rmtree(d, ignore_errors=True)
     core.require_ok(res, "ParamMeaning.tla")
@@ -355,11 +355,26 @@ def _f_exec(stmts, env):
     return env
 
 
+def _uses_functions(x):
+    """does the AST contain a function whose model value differs from the real one (EXP LOG SQRT ..., fractional power)"""
+    if isinstance(x, list):
+        return any(_uses_functions(y) for y in x)
+    if not isinstance(x, dict):
+        return False
+    if x.get("k") == "fn" and x["f"] in ("EXP", "PEXP", "LOG", "PLOG", "SQRT", "PSQRT"):
+        return True
+    if x.get("k") == "pow" and not (x["b"].get("k") == "num" and x["b"]["d"] == 1):
+        return True
+    return any(_uses_functions(y) for y in x.values())
+
+
 def float_agrees(case, model, env, var, fvalue=None):
     """True when, with the real exp/log/sqrt, program and IR agree on `var` at this probe (the exact
     disagreement is then an artefact of the function model)."""
     import sympy
 
+    if not _uses_functions([case["prog"], case.get("err", [])]):
+        return False  # the function model plays no role in this program: nothing to re-check
     try:
         fenv = {k: float(_frac(p)) for k, p in env.items()}
         _f_exec(case["prog"], fenv)
@@ -435,8 +450,11 @@ def compare_vars(case, model, env, exp, got, assigned, why, fvalue_float=None):
         if abs(fa - fb) <= 1e-9 * max(1.0, abs(fa), abs(fb)) or float_agrees(case, model, env, var, fvalue_float):
             stats["artefact"] += 1
             continue
-        consistent = dz is not None and dz[1] != 0 and (
-            Q(_frac(dz)) == val or abs(float(_frac(dz)) - fa) <= 1e-9 * max(1.0, abs(fa)))
+        if dz is not None and dz[1] == 0:
+            consistent = None  # the transcription's value overflowed / is undefined in TLC: no prediction for this variable
+        else:
+            consistent = dz is not None and (
+                Q(_frac(dz)) == val or abs(float(_frac(dz)) - fa) <= 1e-9 * max(1.0, abs(fa)))
         problems.append(("value", var, str(_frac(p)), repr(val), consistent))
     return problems, stats
 
@@ -483,9 +501,13 @@ def replay_program(arg):
             for k, n in stats.items():
                 tot[k] = tot.get(k, 0) + n
             if problems:
-                consistent = all(p[4] for p in problems)
+                flags = [p[4] for p in problems]
+                if all(f is None for f in flags) and any(base["hz"].values()):
+                    tot["indeterminate_design"] = tot.get("indeterminate_design", 0) + 1
+                    continue
+                consistent = not any(f is False for f in flags) and any(f is True for f in flags)
                 o = "as_transcribed" if consistent else problems[0][0]
-                first = next((p for p in problems if not p[4]), problems[0])
+                first = next((p for p in problems if p[4] is False), problems[0])
                 rec = dict(base, outcome=o, env=env, var=first[1], expected=first[2], got=first[3],
                            all_problems=[list(p[:4]) for p in problems])
                 res["violations"].append((rec, f"{first[1]} = {first[3]} in the model that was read, NM-TRAN semantics give {first[2]}"
@@ -719,6 +741,13 @@ def main(tier: str, seed: int) -> int:
     for c in adv:
         first_of_pair.setdefault((c["advan"], c["trans"]), c)
     covrun = CoverageRun(pred[:nsys + 10] + list(first_of_pair.values()))
+    try:
+        return _main(cfg, tier, seed, v, rng, t0, pred, adv, par, progs, covrun)
+    finally:
+        covrun.t.join()  # never leave the background TLC run (and its scratch directory) behind
+
+
+def _main(cfg, tier, seed, v, rng, t0, pred, adv, par, progs, covrun) -> int:
     expect = run_interpreter(progs, v, cfg["chunk"])
     pexpect = run_param_meaning(par, v)
     t_tlc = time.time() - t0
@@ -805,3 +834,52 @@ def replay(path: str) -> int:
         print(f"read_model_from_string raised {type(e).__name__}: {e}")
     print(json.dumps({k: case[k] for k in case if k not in ("text",)}, indent=1)[:3000])
     return 0
+
+
+def selftest(seed: int) -> int:
+    """Binding demonstration: corrupt the value TLC computed for Y (and for one rate constant) in every record and show
+    that the comparison flags every accepted case; with the uncorrupted records none of them raises an unlisted violation."""
+    import copy
+
+    rng = random.Random(seed)
+    pred = G.pred_cases(rng, 30, 1)
+    adv = G.advan_cases(rng, len(pred) + 1, 70)
+    v = core.Verdict("C01", "selftest", seed)
+    expect = run_interpreter(pred + adv, v, 4000)
+    _import_pharmpy()
+    d = core.scratch("c01self")
+    flagged = total = clean_bad = 0
+    try:
+        data = write_datasets(d)
+        for c in pred + adv:
+            recs = [expect[(c["id"], i + 1)] for i in range(len(c["envs"]))]
+            path, cols = ("pheno.dta", None) if c["kind"] == "pred" else data[(c["ratemode"], c["cmtmode"])]
+            clean = replay_program((c, recs, seed + c["id"], path, cols))
+            if clean["status"] != "ok":
+                continue
+            clean_bad += sum(1 for rec, _ in clean["violations"] if core.match_known("C01", rec, v.known) is None)
+            bad = copy.deepcopy(recs)
+            touched = False
+            for r in bad:
+                y = _obj(r["final"]).get("Y")
+                if r["status"] == "ok" and y and y[1] != 0:
+                    r["final"]["Y"] = [y[0] + y[1], y[1]]
+                    r["design"] = {}
+                    touched = True
+                if isinstance(r["adv"], dict) and r["adv"]["rates"] and r["adv"]["rates"][0][2][1] != 0:
+                    n, dd = r["adv"]["rates"][0][2]
+                    r["adv"]["rates"][0][2] = [n + dd, dd]
+            if not touched or (c["kind"] == "pred" and _uses_functions(c["prog"])):
+                continue  # (with EXP/LOG/SQRT in the program a wrong reference value could pass as a function-model artefact)
+            total += 1
+            res = replay_program((c, bad, seed + c["id"], path, cols))
+            outs = {rec["outcome"] for rec, _ in res["violations"]}
+            y_seen = any("Y" in [p[1] for p in rec.get("all_problems", [])] for rec, _ in res["violations"])
+            if (y_seen and c["kind"] == "pred") or "rate_value" in outs or "free_symbol" in outs:
+                flagged += 1
+            else:
+                print("  not flagged:", c["id"], c["kind"], sorted(outs), [rec.get("all_problems") for rec, _ in res["violations"]][:2])
+    finally:
+        shutil.rmtree(d, ignore_errors=True)
+    print(f"selftest C01: corrupted expectations flagged {flagged}/{total}; unlisted violations with the true expectations: {clean_bad}")
+    return 0 if total >= 40 and flagged == total and clean_bad == 0 else 1
